@@ -91,6 +91,8 @@ func LoadWorld(repo string, overlay map[string][]byte, extraEnv []string) (*Worl
 		applyRoles() // the fields that surfaced may be renamed ones
 	}
 	nw, ov := normaliseHelpers(w, repo, cur, extraEnv)
+	// function literals that inlining left without a use (deadlits.go)
+	nw, ov = deadLiterals(nw, repo, ov, extraEnv)
 	// goroutine captures of write-once variables back to the parameters of the reference (captures.go)
 	nw, ov = capturesToParams(nw, repo, ov, extraEnv)
 	// scalar replacement (scalarise.go): local variables of struct types that are not in the reference table
